@@ -18,3 +18,4 @@ def check(A):
         R.response_rules(A, fl, 'C16', parts=('reap',))
         S.close_once(A, fl, 'C16')
         R.handle_connect_rules(A, fl, 'C16')
+        R.trigger_event_rules(A, fl, 'C16')
